@@ -443,6 +443,31 @@ pub fn extract_fn(ctx: &mut Ctx, blk: &Block) -> Result<(String, Value), String>
     let mut col = Collect::default();
     col.visit_block(f.block);
 
+    // N17: `mut self` (by value) is not supported by Verus: `self` + `let mut self__m = self;`, body renamed
+    if let Some(syn::FnArg::Receiver(r)) = f.sig.inputs.first() {
+        if r.mutability.is_some() && r.reference.is_none() {
+            let (ms, _) = offs.range(src, r.mutability.unwrap().span());
+            let (ss, _) = offs.range(src, r.self_token.span());
+            ed.replace(ms, ss, "", "N17", "`mut self` receiver rebinding");
+            ed.insert(body_open + 1, " let mut self__m = self;", "N17", "`mut self` receiver rebinding");
+            struct SelfIds<'a, 's> {
+                ed: &'a mut Edits<'s>,
+                offs: &'a Offsets,
+                src: &'s str,
+            }
+            impl<'a, 's, 'ast> Visit<'ast> for SelfIds<'a, 's> {
+                fn visit_ident(&mut self, i: &'ast proc_macro2::Ident) {
+                    if i == "self" {
+                        let (s, e) = self.offs.range(self.src, i.span());
+                        self.ed.replace(s, e, "self__m", "N17", "`mut self` receiver rebinding");
+                    }
+                }
+            }
+            let mut v = SelfIds { ed: &mut ed, offs: &offs, src };
+            v.visit_block(f.block);
+        }
+    }
+
     // N1: `if let Some(&x) = E { B }`  →  `if let Some(x__r) = E { let x = *x__r; B }`
     for il in &col.iflets {
         if let syn::Expr::Let(l) = &*il.cond {
